@@ -703,7 +703,7 @@ class Sym:
         c1, c2 = 2 * (z3.ToReal(k) - x) <= 1, 2 * (x - z3.ToReal(k)) <= 1
         ENGINE.add(c1, c2)
         ENGINE.literals.extend([c1, c2])      # robust models then stay away from exact ties
-        return Sym(k)
+        return ENGINE.concretize(k)            # case split on the rounded value (both neighbours at an exact tie)
 
     def __hash__(s):
         if s.isint:
